@@ -108,6 +108,11 @@ for cls, f in (("RuleDB", FB), ("RuleDBForgetStrategy", FF)):
         contract(f, f"{cls}.{nm}", props=["C14"], inline=True, verify=False,
                  trusted_reason="attribute getter, inlined from its real source", params={})
 
+for nm in ("rule_to_strategy", "eqv_rule_to_strategy"):
+    contract(FB, f"RuleDBBase.{nm}", props=["C05", "C02"], verify=False, aliases=AL,
+             trusted_reason="abstract property: the store of the concrete database (a mapping keyed by (parent, children))",
+             params={"self": Obj("RuleDBBase")}, returns=Dict(RuleKey, Strategy))
+REG.classes["RuleDBBase"].properties += ["rule_to_strategy", "eqv_rule_to_strategy"]
 contract(FB, "RuleDBBase.root_label", source="RuleDBBase.iterative", props=["C05"], verify=False,
          trusted_reason="searcher.start_label through the link to the searcher (RuleDBAbstract properties)",
          params={"self": Obj("RuleDBBase")}, returns=Int, ensures=["result == root_label_of(self)"])
